@@ -27,6 +27,10 @@ INT_POOL = {
     "sub_mul_b": (("subi", "a", "b"), ("muli", "b", 0)),
     "three": (("addi", "a", "b"), ("subi", "a", "b"), ("muli", 0, 1)),
     "three_chain": (("muli", "a", "b"), ("addi", 0, "b"), ("subi", 1, "a")),
+    # the same three operations with the third one's first operand taken from each of the four places it can come from
+    "three_a": (("addi", "a", "b"), ("subi", "a", "b"), ("muli", "a", 1)),
+    "three_b": (("addi", "a", "b"), ("subi", "a", "b"), ("muli", "b", 1)),
+    "three_1": (("addi", "a", "b"), ("subi", "a", "b"), ("muli", 1, 0)),
     "xor_or": (("xori", "a", "b"), ("ori", 0, "b")),
     "sq_plus_b": (("muli", "a", "a"), ("addi", 0, "b")),
     "dbl_sub": (("addi", "a", "a"), ("subi", 0, "b")),
@@ -320,6 +324,16 @@ def run(chk):
         if quick and len(perms) > 120:
             perms = rnd.sample(perms, 120)
         cases += [(p, True) for p in perms]
+    # one operand slot routed from four different places (three chained muxes): the four `three*` kernels in every
+    # order, alone and with shorter kernels in front / between
+    deep = ["three", "three_a", "three_b", "three_1"]
+    for perm in itertools.permutations(deep):
+        cases.append((perm, False))
+    for _ in range(30 if quick else 400):
+        extra = rnd.sample([k for k in ipool if k not in deep], rnd.randint(1, 2))
+        h = list(rnd.sample(deep, 4)) + extra
+        rnd.shuffle(h)
+        cases.append((tuple(h), False))
     if not quick:
         for _ in range(4000):
             cases.append((tuple(rnd.sample(ipool, 5)), False))
@@ -330,5 +344,5 @@ def run(chk):
     hw = [(p, False) for p in itertools.permutations(ipool[:8], 2)] + [(p, False) for p in rnd.sample(list(itertools.permutations(ipool, 3)), 60)]
     if only in (None, "hw"):
         chk.add_results("hardware_switch_count", pmap(case_hw, hw, chunks=8))
-    chk.bounds = dict(int_pool=ipool, float_pool=fpool, history_length=f"1..{maxlen} (+ sampled 5 and 6 in thorough)", widths=32)
+    chk.bounds = dict(int_pool=ipool, float_pool=fpool, history_length=f"1..{maxlen} (+ the four three-operation kernels that route one operand from four places, in every order, + sampled 5 and 6 in thorough)", widths=32)
     chk.outside = ["kernels with more than 2 data inputs or more than 3 ops", "mixed-type histories", "float rounding (uninterpreted)"]
